@@ -3,11 +3,13 @@ package main
 import (
 	"fmt"
 	"go/ast"
+	"go/constant"
 	"go/token"
 	"go/types"
 	"strings"
 
 	"golang.org/x/tools/go/cfg"
+	"golang.org/x/tools/go/ssa"
 )
 
 func init() {
@@ -290,30 +292,99 @@ func tagBoundaryRule(r *Run, rule string, m *lexerModel) {
 		r.Bad(rule, pm.stmtParse.Name(), "S_START in statement position", w.Pos(pm.stmtParse.Decl.Pos()), "the statement parser must step over '<%' and parse the statement that follows")
 	}
 	// program loop: blank statements dropped
-	okBlank := false
-	inspectBody(pm.program.Decl.Body, false, func(n ast.Node) bool {
-		ifs, ok := n.(*ast.IfStmt)
-		if !ok {
-			return true
-		}
-		ast.Inspect(ifs.Cond, func(m ast.Node) bool {
-			be, ok := m.(*ast.BinaryExpr)
-			if !ok || be.Op != token.NEQ {
-				return true
+	blankStatementsRuleSSA(r, rule, pm)
+}
+
+// blankStatementsRuleSSA: on every path of the program loop that appends a
+// statement s to the program, s was found to render non-blank
+// (strings.TrimSpace(s.String()) != "") or to be a literal-text statement (an
+// expression statement holding an *ast.HTMLLiteral). Plain functions of the
+// parser package (predicates) are walked in line.
+func blankStatementsRuleSSA(r *Run, rule string, pm *parserModel) {
+	w := r.W
+	w.SSA()
+	fn := w.SSAFunc(pm.program)
+	if fn == nil {
+		r.Lost(rule, "program loop")
+		return
+	}
+	inline := func(caller, callee *ssa.Function) bool {
+		return callee.Pkg == fn.Pkg && callee.Signature.Recv() == nil && !funcHasLoop(callee)
+	}
+	paths, ok := walkPathsUnrolled(fn, nil, inline, 50000)
+	if !ok {
+		r.Lost(rule, "paths of the program loop")
+		return
+	}
+	name := pm.program.Name()
+	nApp, bad := 0, false
+	var badPos token.Pos
+	for _, p := range paths {
+		for ei, ev := range p.events {
+			c, ok := ev.(*ssa.Call)
+			if !ok {
+				continue
 			}
-			if s, ok := constString(pm.info, be.Y); ok && s == "" {
-				if c, ok := unparen(be.X).(*ast.CallExpr); ok && funcIs(calleeOf(pm.info, c), "strings", "TrimSpace") {
-					okBlank = true
+			b, ok := c.Call.Value.(*ssa.Builtin)
+			if !ok || b.Name() != "append" || len(c.Call.Args) != 2 {
+				continue
+			}
+			if _, isStmts := isFieldLoadOf(p.resolve(c.Call.Args[0]), astPath, "Program", "Statements"); !isStmts {
+				continue
+			}
+			els, ok := p.sliceElems(c.Call.Args[1])
+			if !ok || len(els) != 1 {
+				bad, badPos = true, c.Pos()
+				continue
+			}
+			nApp++
+			st := p.resolve(els[0])
+			isS := func(v ssa.Value) bool { return p.resolve(stripIface(p.resolve(v))) == st || p.resolve(v) == st }
+			licensed := false
+			for _, d := range p.decisions[:p.evDecided[ei]] {
+				// strings.TrimSpace(s.String()) != ""
+				if bo, ok := d.cond.(*ssa.BinOp); ok && (bo.Op == token.NEQ || bo.Op == token.EQL) && d.truth == (bo.Op == token.NEQ) {
+					x, y := p.resolve(bo.X), p.resolve(bo.Y)
+					if k, ok := p.constOf(x); ok && k.Kind() == constant.String {
+						x, y = y, x
+					}
+					if k, ok := p.constOf(y); ok && k.Kind() == constant.String && constant.StringVal(k) == "" {
+						if tc, ok := x.(*ssa.Call); ok {
+							if pkg, fname := staticCalleeName(tc); pkg == "strings" && fname == "TrimSpace" && len(tc.Call.Args) == 1 {
+								if sc, ok := p.resolve(tc.Call.Args[0]).(*ssa.Call); ok && sc.Call.IsInvoke() && sc.Call.Method.Name() == "String" && isS(sc.Call.Value) {
+									licensed = true
+								}
+							}
+						}
+					}
+				}
+				// s.(*ast.ExpressionStatement).Expression.(*ast.HTMLLiteral)
+				if ex, ok := d.cond.(*ssa.Extract); ok && ex.Index == 1 && d.truth {
+					if ta, ok := ex.Tuple.(*ssa.TypeAssert); ok && ta.CommaOk && namedIs(ta.AssertedType, astPath, "HTMLLiteral") {
+						if ld, ok := p.resolve(ta.X).(*ssa.UnOp); ok && ld.Op == token.MUL {
+							if fa, ok := ld.X.(*ssa.FieldAddr); ok {
+								if e0, ok := p.resolve(fa.X).(*ssa.Extract); ok && e0.Index == 0 {
+									if ta0, ok := e0.Tuple.(*ssa.TypeAssert); ok && namedIs(ta0.AssertedType, astPath, "ExpressionStatement") && isS(ta0.X) {
+										licensed = true
+									}
+								}
+							}
+						}
+					}
 				}
 			}
-			return true
-		})
-		return true
-	})
-	if okBlank {
-		r.Ok(rule, pm.program.Name(), "blank statements dropped", w.Pos(pm.program.Decl.Pos()), "strings.TrimSpace(stmt.String()) != \"\"")
-	} else {
-		r.Bad(rule, pm.program.Name(), "blank statements", w.Pos(pm.program.Decl.Pos()), "what a bare '%>' parses to must not become a statement")
+			if !licensed {
+				bad, badPos = true, c.Pos()
+			}
+		}
+	}
+	switch {
+	case nApp == 0:
+		r.Lost(rule, "appends to the program's statements")
+	case bad:
+		r.Bad(rule, name, "blank statements", w.Pos(badPos), "what a bare '%>' parses to must not become a statement: a statement is appended without having been found to render non-blank (or to be literal text)")
+	default:
+		r.Ok(rule, name, "blank statements dropped", w.Pos(pm.program.Decl.Pos()), fmt.Sprintf("%d append(s) on the paths of the loop, each behind strings.TrimSpace(stmt.String()) != \"\" or the literal-text test", nApp))
 	}
 }
 
